@@ -118,9 +118,10 @@ VOCAB = {
             "0": ("rn_rgb_f0", None, U8), "1": ("rn_rgb_f1", None, U8), "2": ("rn_rgb_f2", None, U8)}},
         "Ansi256Color": {"coq": "N", "var": "i", "fields": {"0": ("rn_a256_f0", None, U8)}},
         "NullFormatter": {"coq": "(list N)", "var": "nf", "fields": {"0": ("rn_nf_f0", None, BYTES)}},
-        # core::fmt::Formatter as far as this code uses it (Model/Render.v rn_fmt): the text written so far, the
-        # alternate flag, width / fill / align / precision (carried along; nothing below reads them)
-        "Formatter": {"coq": "rn_fmt", "var": "f", "fields": {}},
+        # core::fmt::Formatter as far as this code uses it (Model/Render.v rn_fmtr): the hand model's rn_fmt (the text
+        # written so far, the alternate flag, width / fill / align / precision: carried along, nothing below reads
+        # them) over a sink that answers write_str from a script (a String sink never fails: empty script)
+        "Formatter": {"coq": "rn_fmtr", "var": "f", "fields": {}},
         # effect.rs (the functions of Effects / EffectIndexIter are the ones of Generated/StyleFn.v)
         "Effects": {"coq": "N", "var": "e", "fields": {"0": ("eff_f0", "set_eff_f0", U16)}},
         "EffectsDisplay": {"coq": "N", "var": "ed", "fields": {"0": ("effd_f0", None, EFF)}},
@@ -154,10 +155,10 @@ VOCAB = {
     },
     "methods": {
         ("list", "enumerate"): m_enumerate,
-        # Formatter::write_str appends to the sink and answers Ok(()) (a String / Vec sink never fails);
+        # Formatter::write_str appends to the sink and answers Ok(()), or the sink fails: Err, nothing appended;
         # no padding, no truncation: the flags are not looked at
         ("Formatter", "write_str"): shape("rn_fw_write_str", "inout", [("in", BYTES)], res(UNIT)),
-        ("Formatter", "alternate"): shape("fm_alternate", "in", [], BOOL),
+        ("Formatter", "alternate"): shape("fr_alternate", "in", [], BOOL),
         # `&mut dyn io::Write`: the scripted writer of Spec/Io.v, write_all is std's default method
         ("coq", "write_all"): shape("w_write_all", "inout", [("in", BYTES)], res(UNIT)),
         # Generated/StyleFn.v
